@@ -73,6 +73,7 @@ TRANSLATORS = {
     "GenLoops": "gen_loops",
     "GenPeriodic": "gen_periodic",
     "GenRestore": "gen_restore",
+    "GenRoutes": "gen_routes",
 }
 
 
